@@ -6,6 +6,8 @@ def dispatchInterop (line : String) : String :=
   | "fn" :: args => handleFn args
   | "io" :: args => handleInterop args
   | "st" :: args => handleStruct args
+  | "rs" :: args => handleResult args
+  | "cb" :: args => handleCallback args
   | _ => "bad-op"
 
 partial def loopInterop (h : IO.FS.Stream) (out : IO.FS.Stream) : IO Unit := do
